@@ -253,7 +253,8 @@ struct Driver
         std::ostringstream o;
         o << "{\"k\":\"" << names[PL::template kind<I>()] << "\",\"sz\":" << sizeof(T)
           << ",\"al\":" << PL::template Info<I>::al
-          << ",\"triv\":" << (std::is_trivially_copyable_v<T> ? 1 : 0) << "}";
+          << ",\"triv\":" << (std::is_trivially_copyable_v<T> ? 1 : 0)
+          << ",\"flt\":" << (std::is_floating_point_v<T> ? 1 : 0) << "}";
         return o.str();
     }
     template <std::size_t... I>
@@ -796,7 +797,8 @@ struct Driver
         }
         else if constexpr (kind == PLAIN)
         {
-            return VT<T>::make(salt < 0 ? valc_of(tag, static_cast<int>(I) + 1) : val_of(tag, salt, static_cast<int>(I) + 1, 1));
+            return salt < 0 ? VT<T>::make_digit(valc_of(tag, static_cast<int>(I) + 1))
+                            : VT<T>::make(val_of(tag, salt, static_cast<int>(I) + 1, 1));
         }
         else
         {
@@ -804,8 +806,8 @@ struct Driver
             const std::size_t n = kind == FIXED ? fixed_count_of<I>(v) : static_cast<std::size_t>(vs[I]);
             r.reserve(n);
             for (std::size_t j = 0; j < n; ++j)
-                r.push_back(VT<T>::make(salt < 0 ? valc_of(tag, static_cast<int>(I) + 1)
-                                                 : val_of(tag, salt, static_cast<int>(I) + 1, static_cast<int>(j) + 1)));
+                r.push_back(salt < 0 ? VT<T>::make_digit(valc_of(tag, static_cast<int>(I) + 1))
+                                     : VT<T>::make(val_of(tag, salt, static_cast<int>(I) + 1, static_cast<int>(j) + 1)));
             return r;
         }
     }
@@ -838,10 +840,21 @@ struct Driver
         std::apply([&](auto&... a) { vec.emplace_back(a...); }, args);
     }
 
-    void construct(int v, std::size_t cap, std::size_t bud, int al)
+    void construct(int v, std::size_t cap, std::size_t bud, int al, int variant = 0)
     {
         vfixed[v] = Cfg::fixed;
-        construct_at(vstore[v], cap, bud, al, Cfg::fixed);
+        if (variant == 1)
+        {
+            // the second FixedSize variant of the model (Cntgs!FxOf): the counts in reverse order when that differs,
+            // else every count + 1
+            auto rev = vfixed[v];
+            std::reverse(rev.begin(), rev.end());
+            if (rev != vfixed[v])
+                vfixed[v] = rev;
+            else
+                for (auto& f : vfixed[v]) ++f;
+        }
+        construct_at(vstore[v], cap, bud, al, vfixed[v]);
     }
 
     static void construct_at(void* where, std::size_t cap, std::size_t bud, int al,
@@ -897,7 +910,8 @@ struct Driver
         {
             if (op.n == "Construct")
             {
-                construct(v, static_cast<std::size_t>(op.a[0]), static_cast<std::size_t>(op.a[1]), op.a[2]);
+                construct(v, static_cast<std::size_t>(op.a[0]), static_cast<std::size_t>(op.a[1]), op.a[2],
+                          op.a.size() >= 4 ? op.a[3] : 0);
                 vstate[v] = 1;
                 last_construct[v][0] = static_cast<std::size_t>(op.a[0]);
                 last_construct[v][1] = static_cast<std::size_t>(op.a[1]);
